@@ -37,7 +37,7 @@ INFO = {
  "c07-agent2": dict(prop="C07", file="p2panda/src/streams/acked.rs", needs="a persisted cursor that already holds an entry for a foreign topic's log (via replace_cursor), then an ack of that foreign log", checks=["C07"],
                     note="NOT DETECTED: the change is in Acked::ack (SQLite store + tokio semaphore), which C07's PARTIAL claim states as outside the encoded code (only the Cursor algebra is decided)"),
  "c03-agent2": dict(prop="C03", file="p2panda-stream/src/ingest/operation.rs", needs="a late, older prune-flagged operation after a newer prune point was stored (lookup of the stored head skipped when the prune flag is set)", checks=["C05", "C03"],
-                    note="first trial: missed (the ingest glue was modelled, not encoded); caught after the real ingest_operation was mounted over a model store (harness/core/src/ingest.rs)"),
+                    note="missed by the checks as they stood (by construction: no harness encoded p2panda-stream/src/ingest/operation.rs, its glue was only modelled); caught after the real ingest_operation was mounted over a model store (harness/core/src/ingest.rs)"),
  "c33-agent2": dict(prop="C33", file="p2panda-auth/src/group/crdt/state.rs", needs="an active non-manager promoting or demoting ITSELF (the self-removal exception of remove() leaks into modify())", checks=["C33"]),
 }
 INFO.update(json.load(open(os.path.join(S, "extra_info.json"))) if os.path.exists(os.path.join(S, "extra_info.json")) else {})
